@@ -219,7 +219,7 @@ DatagramTags(D, b, res) ==
   TotalTags(res, Len(b)) \cup
   IF res.panic \/ res.slow THEN {}
   ELSE LET sp == SplitFrames(b, << >>)
-           r  == DecDatagram(D, b)
+           r  == DecSplit(D, sp)
        IN  (IF res.ok /\ (~sp.ok \/ sp.frames = << >>) THEN {"C06:bad_framing_accepted"} ELSE {})
            \cup (IF res.ok /\ sp.ok /\ Len(res.out) # Len(sp.frames) THEN {"C06:frame_count"} ELSE {})
            \cup (IF ~res.ok /\ res.out # << >> THEN {"C06:packets_with_error"} ELSE {})
